@@ -97,6 +97,10 @@ class DBusClientConnection (txdbus.protocol.BasicDBusProtocol):
         Called when the transport loses connection to the bus
         """
         if self.busName is None:
+            # Lost before the Hello reply arrived (during authentication,
+            # after it was refused, or while Hello was outstanding): the
+            # connection attempt has failed.
+            self.factory._failed(reason)
             return
 
         for cb in self._dcCallbacks:
@@ -653,7 +657,10 @@ class DBusClientFactory (Factory):
         self.d.callback(proto)
 
     def _failed(self, err):
-        self.d.errback(err)
+        # A Hello error reply may already have failed the attempt before the
+        # transport goes away.
+        if not self.d.called:
+            self.d.errback(err)
 
     def getConnection(self):
         """
